@@ -1,1 +1,452 @@
+(* C09_Proofs.v — the read loop has a closed form that does not mention the schedule;
+   everything else follows from it. *)
+From Coq Require Import Lia.
 From V Require Import C09_Spec.
+Open Scope N_scope.
+
+Lemma prefix_len_is_4 : c09_prefix_len = 4.
+Proof. reflexivity. Qed.
+
+Lemma cap_spec need avail : cap need avail = Nat.min (N.to_nat need) avail.
+Proof. unfold cap. destruct (N.ltb_spec need (N.of_nat avail)); lia. Qed.
+
+(* ---------- list arithmetic ---------- *)
+Lemma firstn_firstn_skipn {A} (a b : nat) (d : list A) :
+  firstn a d ++ firstn b (skipn a d) = firstn (a + b) d.
+Proof.
+  revert d; induction a as [|a IH]; intros d; [reflexivity|].
+  destruct d as [|x d]; simpl; [now rewrite firstn_nil|]. now rewrite IH.
+Qed.
+
+Lemma skipn_skipn' {A} (a b : nat) (d : list A) : skipn b (skipn a d) = skipn (a + b) d.
+Proof.
+  revert d; induction a as [|a IH]; intros d; [reflexivity|].
+  destruct d as [|x d]; simpl; [now rewrite skipn_nil|]. apply IH.
+Qed.
+
+Lemma skipn_nil_iff {A} (n : nat) (d : list A) : skipn n d = [] <-> (length d <= n)%nat.
+Proof.
+  revert d; induction n as [|n IH]; intros [|x d]; simpl; try (split; [intros; lia|reflexivity]).
+  - split; [discriminate|lia].
+  - rewrite IH. lia.
+Qed.
+
+(* ---------- the closed form of timeoutDelimitedReader.read ---------- *)
+Definition conv_eof (e : ioerr) (n : nat) : ioerr :=
+  match e with EEOF => if (0 <? n)%nat then EUnexpected else EEOF | _ => e end.
+
+(* what a read of `need` more bytes must produce from data d, whatever the schedule *)
+Definition loop_post (need : N) (got d : bytes) (eg : bool) (tl : tail_t) (r : rn) : Prop :=
+  if need <=? N.of_nat (length d)
+  then exists sch', r = RnDone (got ++ firstn (N.to_nat need) d) (mk_src (skipn (N.to_nat need) d) sch' eg tl)
+  else match tail_err tl with
+       | Some e => exists sch', r = RnErr (conv_eof e (length got + length d)) (length got + length d) (mk_src [] sch' eg tl)
+       | None => r = RnStall (length got + length d)
+       end.
+
+Lemma read_loop_closed : forall fuel need got d sch eg t,
+  (length sch + length d < fuel)%nat ->
+  loop_post need got d eg t (read_loop fuel need got (mk_src d sch eg t)).
+Proof.
+  induction fuel as [|f IH]; intros need got d sch eg t Hf; [lia|].
+  cbn [read_loop]. unfold src_read. cbn [s_data s_sched s_eager s_tail].
+  destruct (N.eqb_spec need 0) as [->|Hn0].
+  - (* numBytes = 0: one Read with an empty buffer *)
+    unfold loop_post. replace (0 <=? N.of_nat (length d)) with true by (symmetry; apply N.leb_le; lia).
+    cbn. exists sch. now rewrite app_nil_r.
+  - destruct d as [|x d'].
+    + (* no data left *)
+      unfold loop_post. cbn [length]. replace (need <=? N.of_nat 0) with false by (symmetry; apply N.leb_gt; lia).
+      destruct t; cbn [tail_err].
+      * replace (N.of_nat (length (@nil N)) =? need) with false by (symmetry; apply N.eqb_neq; cbn; lia).
+        exists sch. rewrite app_nil_r, Nat.add_0_r. reflexivity.
+      * rewrite Nat.add_0_r. reflexivity.
+      * replace (N.of_nat (length (@nil N)) =? need) with false by (symmetry; apply N.eqb_neq; cbn; lia).
+        exists sch. rewrite app_nil_r, Nat.add_0_r. reflexivity.
+    + set (d := x :: d') in *.
+      assert (Hd1 : (1 <= length d)%nat) by (subst d; cbn [length]; lia).
+      set (k := match sch with [] => length d | k :: _ => Nat.min k (length d) end).
+      assert (Hk : (k <= length d)%nat) by (subst k; destruct sch; lia).
+      assert (Hk0 : sch = [] -> k = length d) by (intros ->; reflexivity).
+      rewrite cap_spec. set (m := Nat.min (N.to_nat need) k).
+      assert (Hlen : length (firstn m d) = m) by (rewrite firstn_length; lia).
+      rewrite Hlen.
+      destruct (N.eqb_spec (N.of_nat m) need) as [Hm|Hm].
+      * (* this Read completes the unit: any error is ignored *)
+        unfold loop_post. replace (need <=? N.of_nat (length d)) with true by (symmetry; apply N.leb_le; lia).
+        exists (tl sch). replace (N.to_nat need) with m by lia. reflexivity.
+      * assert (Hlt : (m < N.to_nat need)%nat) by lia.
+        assert (Hmk : m = k) by lia.
+        destruct (skipn m d) as [|y rest] eqn:Hrest.
+        -- (* all data consumed, still short *)
+           apply (f_equal (@length N)) in Hrest as Hl. rewrite skipn_length in Hl. cbn [length] in Hl.
+           assert (Hmd : m = length d) by lia.
+           assert (Hfd : firstn m d = d) by (rewrite Hmd; apply firstn_all).
+           unfold loop_post. replace (need <=? N.of_nat (length d)) with false by (symmetry; apply N.leb_gt; lia).
+           rewrite Hfd.
+           destruct eg.
+           ++ destruct t; cbn [tail_err].
+              ** exists (tl sch). rewrite app_length. reflexivity.
+              ** (* stalls: the next Read blocks *)
+                 specialize (IH (need - N.of_nat m) (got ++ d) [] (List.tl sch) true TBlock).
+                 unfold loop_post in IH. cbn [length tail_err] in IH.
+                 replace (need - N.of_nat m <=? N.of_nat 0) with false in IH by (symmetry; apply N.leb_gt; lia).
+                 rewrite IH; [|destruct sch; cbn [length List.tl] in Hf |- *; lia]. rewrite app_length. f_equal; lia.
+              ** exists (tl sch). rewrite app_length. reflexivity.
+           ++ specialize (IH (need - N.of_nat m) (got ++ d) [] (List.tl sch) false t).
+              unfold loop_post in IH. cbn [length] in IH.
+              replace (need - N.of_nat m <=? N.of_nat 0) with false in IH by (symmetry; apply N.leb_gt; lia).
+              assert (Hfu : (length (List.tl sch) + 0 < f)%nat) by (destruct sch; cbn [length List.tl] in Hf |- *; lia).
+              specialize (IH Hfu). rewrite app_length, Nat.add_0_r in IH.
+              destruct (tail_err t); exact IH.
+        -- (* more data remains: loop *)
+           assert (Hml : (m < length d)%nat).
+           { destruct (Nat.lt_ge_cases m (length d)); [assumption|].
+             assert (skipn m d = []) by (apply skipn_nil_iff; lia). congruence. }
+           assert (Hsch : sch <> []) by (intros E; specialize (Hk0 E); lia).
+           rewrite <- Hrest.
+           specialize (IH (need - N.of_nat m) (got ++ firstn m d) (skipn m d) (List.tl sch) eg t).
+           assert (Hfu : (length (List.tl sch) + length (skipn m d) < f)%nat).
+           { rewrite skipn_length. destruct sch; [congruence|]. cbn [length List.tl] in Hf |- *. lia. }
+           specialize (IH Hfu). unfold loop_post in *. rewrite skipn_length in IH.
+           destruct (N.leb_spec need (N.of_nat (length d))) as [Hle|Hgt].
+           ++ replace (need - N.of_nat m <=? N.of_nat (length d - m)) with true in IH by (symmetry; apply N.leb_le; lia).
+              destruct IH as [sch' IH]. exists sch'. rewrite IH.
+              rewrite <- app_assoc, firstn_firstn_skipn, skipn_skipn'.
+              replace (m + N.to_nat (need - N.of_nat m))%nat with (N.to_nat need) by lia. reflexivity.
+           ++ replace (need - N.of_nat m <=? N.of_nat (length d - m)) with false in IH by (symmetry; apply N.leb_gt; lia).
+              rewrite app_length, Hlen in IH.
+              replace (length got + m + (length d - m))%nat with (length got + length d)%nat in IH by lia.
+              exact IH.
+Qed.
+
+Lemma read_n_closed want d sch eg t :
+  loop_post want [] d eg t (read_n want (mk_src d sch eg t)).
+Proof. unfold read_n, read_fuel. apply read_loop_closed. cbn. lia. Qed.
+
+Lemma loop_post_not_fuel need got d eg t r : loop_post need got d eg t r -> r <> RnFuel.
+Proof.
+  unfold loop_post. destruct (need <=? N.of_nat (length d)).
+  - intros [? ->]; discriminate.
+  - destruct (tail_err t); [intros [? ->]|intros ->]; discriminate.
+Qed.
+
+(* ---------- io.ReadFull does the same as timeoutDelimitedReader.read ---------- *)
+Lemma src_read_len need s c err s' : src_read need s = RData c err s' -> N.of_nat (length c) <= need.
+Proof.
+  unfold src_read. destruct (N.eqb_spec need 0) as [->|Hn].
+  - intros E; inversion E; subst; cbn; lia.
+  - destruct (s_data s) as [|x d'] eqn:Hd.
+    + destruct (tail_err (s_tail s)); intros E; inversion E; subst; cbn; lia.
+    + intros E; inversion E; subst. rewrite firstn_length, cap_spec. lia.
+Qed.
+
+Lemma read_full_loop_S f need got s :
+  read_full_loop (S f) need got s =
+  if need =? 0 then RnDone got s
+  else match src_read need s with
+  | RBlock => RnStall (length got)
+  | RData c err s' =>
+    let got' := got ++ c in
+    let need' := need - N.of_nat (length c) in
+    match err with
+    | None => read_full_loop f need' got' s'
+    | Some e =>
+      if need' =? 0 then RnDone got' s'
+      else RnErr (match e with
+                  | EEOF => if (0 <? length got')%nat then EUnexpected else EEOF
+                  | _ => e end) (length got') s'
+    end
+  end.
+Proof. reflexivity. Qed.
+
+Lemma read_full_eq : forall fuel need got s,
+  read_loop fuel need got s <> RnFuel ->
+  read_full_loop (S fuel) need got s = read_loop fuel need got s.
+Proof.
+  induction fuel as [|f IH]; intros need got s Hnf; [cbn in Hnf; congruence|].
+  rewrite read_full_loop_S. cbn [read_loop] in Hnf |- *.
+  destruct (N.eqb_spec need 0) as [->|Hn].
+  - unfold src_read. cbn. now rewrite app_nil_r.
+  - destruct (src_read need s) as [|c err s'] eqn:Hr; [reflexivity|].
+    pose proof (src_read_len _ _ _ _ _ Hr) as Hc. cbv zeta.
+    destruct (N.eqb_spec (N.of_nat (length c)) need) as [Hm|Hm].
+    + replace (need - N.of_nat (length c)) with 0 by lia.
+      destruct err; [reflexivity|]. rewrite read_full_loop_S. reflexivity.
+    + destruct (N.eqb_spec (need - N.of_nat (length c)) 0) as [E|_]; [lia|].
+      destruct err; [reflexivity|]. apply IH. exact Hnf.
+Qed.
+
+Lemma read_full_same want s : read_full want s = read_n want s.
+Proof.
+  unfold read_full, read_n. apply read_full_eq.
+  destruct s as [d sch eg t]. eapply loop_post_not_fuel. apply read_loop_closed.
+  unfold read_fuel; cbn; lia.
+Qed.
+
+(* ---------- one message ---------- *)
+Definition short_post (t : tail_t) (in_body : bool) (n : nat) (x : N) (eg : bool) (r : rm) : Prop :=
+  match t with
+  | TBlock => r = MTimeout in_body n x
+  | TEOF => exists sch', r = MErr (if in_body || (0 <? n)%nat then MUnexpected else MEOF) (mk_src [] sch' eg t)
+  | TFail => exists sch', r = MErr MIO (mk_src [] sch' eg t)
+  end.
+
+Definition step_post (max : option N) (d : bytes) (eg : bool) (t : tail_t) (r : rm) : Prop :=
+  match take 4 d with
+  | TkShort n => short_post t false n 4 eg r
+  | TkDone p rest =>
+    let size := be_decode p 0 in
+    if over max size then exists sch', r = MErr MOversize (mk_src rest sch' eg t)
+    else match take size rest with
+         | TkShort n => short_post t true n size eg r
+         | TkDone m rest' => exists sch', r = Msg m (mk_src rest' sch' eg t)
+         end
+  end.
+
+Lemma read_msg_post max d sch eg t : step_post (Some max) d eg t (read_msg max (mk_src d sch eg t)).
+Proof.
+  unfold step_post, read_msg, take. rewrite prefix_len_is_4.
+  pose proof (read_n_closed 4 d sch eg t) as H1. unfold loop_post in H1.
+  destruct (4 <=? N.of_nat (length d)).
+  - destruct H1 as [sch1 ->]. cbn [app over].
+    destruct (max <? be_decode (firstn (N.to_nat 4) d) 0); [exists sch1; reflexivity|].
+    set (size := be_decode (firstn (N.to_nat 4) d) 0). set (rest := skipn (N.to_nat 4) d).
+    pose proof (read_n_closed size rest sch1 eg t) as H2. unfold loop_post in H2.
+    destruct (size <=? N.of_nat (length rest)).
+    + destruct H2 as [sch2 ->]. exists sch2. reflexivity.
+    + unfold short_post. destruct t; cbn [tail_err] in H2.
+      * destruct H2 as [sch2 ->]. exists sch2. unfold conv_eof. cbn [length Nat.add orb]. destruct (0 <? length rest)%nat; reflexivity.
+      * rewrite H2. reflexivity.
+      * destruct H2 as [sch2 ->]. exists sch2. reflexivity.
+  - unfold short_post. destruct t; cbn [tail_err] in H1.
+    + destruct H1 as [sch1 ->]. exists sch1. unfold conv_eof. cbn [length Nat.add orb]. destruct (0 <? length d)%nat; reflexivity.
+    + rewrite H1. reflexivity.
+    + destruct H1 as [sch1 ->]. exists sch1. reflexivity.
+Qed.
+
+Lemma decode_next_post d sch eg t : step_post None d eg t (decode_next (mk_src d sch eg t)).
+Proof.
+  unfold step_post, decode_next, take. rewrite prefix_len_is_4, read_full_same.
+  pose proof (read_n_closed 4 d sch eg t) as H1. unfold loop_post in H1.
+  destruct (4 <=? N.of_nat (length d)).
+  - destruct H1 as [sch1 ->]. cbn [app over]. rewrite read_full_same.
+    set (size := be_decode (firstn (N.to_nat 4) d) 0). set (rest := skipn (N.to_nat 4) d).
+    pose proof (read_n_closed size rest sch1 eg t) as H2. unfold loop_post in H2.
+    destruct (size <=? N.of_nat (length rest)).
+    + destruct H2 as [sch2 ->]. exists sch2. reflexivity.
+    + unfold short_post. destruct t; cbn [tail_err] in H2.
+      * destruct H2 as [sch2 ->]. exists sch2. unfold conv_eof. cbn [length Nat.add orb]. destruct (0 <? length rest)%nat; reflexivity.
+      * rewrite H2. reflexivity.
+      * destruct H2 as [sch2 ->]. exists sch2. reflexivity.
+  - unfold short_post. destruct t; cbn [tail_err] in H1.
+    + destruct H1 as [sch1 ->]. exists sch1. unfold conv_eof. cbn [length Nat.add orb]. destruct (0 <? length d)%nat; reflexivity.
+    + rewrite H1. reflexivity.
+    + destruct H1 as [sch1 ->]. exists sch1. reflexivity.
+Qed.
+
+(* ---------- the whole stream ---------- *)
+Lemma all_loop_spec (mx : option N) (next : src -> rm) :
+  (forall d sch eg t, step_post mx d eg t (next (mk_src d sch eg t))) ->
+  forall fuel d sch eg t, read_all_loop fuel next (mk_src d sch eg t) = spec_read fuel mx t d.
+Proof.
+  intros Hstep. induction fuel as [|f IH]; intros d sch eg t; [reflexivity|].
+  cbn [read_all_loop spec_read]. specialize (Hstep d sch eg t). unfold step_post in Hstep.
+  destruct (take 4 d) as [p rest|n].
+  - cbv zeta in Hstep. destruct (over mx (be_decode p 0)).
+    + destruct Hstep as [sch' ->]. reflexivity.
+    + destruct (take (be_decode p 0) rest) as [m rest'|n].
+      * destruct Hstep as [sch' ->]. rewrite IH. reflexivity.
+      * unfold short_post in Hstep. unfold short_outcome.
+        destruct t; [destruct Hstep as [sch' ->]|rewrite Hstep|destruct Hstep as [sch' ->]]; reflexivity.
+  - unfold short_post in Hstep. unfold short_outcome.
+    destruct t; [destruct Hstep as [sch' ->]|rewrite Hstep|destruct Hstep as [sch' ->]]; reflexivity.
+Qed.
+
+(* THE chunking theorem: for every byte string, schedule, error-delivery mode and
+   ending, the reader's result is the schedule-free expected one. *)
+Lemma any_sched_proof : forall max d sch eg t,
+  read_all max (mk_src d sch eg t) = expected (Some max) t d.
+Proof. intros. unfold read_all, expected. apply all_loop_spec. intros; apply read_msg_post. Qed.
+
+Lemma decoder_any_sched_proof : forall d sch eg t,
+  decode_all (mk_src d sch eg t) = expected None t d.
+Proof. intros. unfold decode_all, expected. apply all_loop_spec. intros; apply decode_next_post. Qed.
+
+(* ---------- consequences for well-formed streams (schedule-free reasoning) ---------- *)
+Ltac Zify.zify_post_hook ::= Z.to_euclidean_division_equations.
+
+Lemma be_decode_be32 n : n < 4294967296 -> be_decode (be32 n) 0 = n.
+Proof. intros H. unfold be32. cbn [be_decode]. lia. Qed.
+
+Lemma be32_be_decode a b c e :
+  a < 256 -> b < 256 -> c < 256 -> e < 256 -> be32 (be_decode [a; b; c; e] 0) = [a; b; c; e].
+Proof. intros. cbn [be_decode]. unfold be32. repeat f_equal; lia. Qed.
+
+Lemma be32_length n : length (be32 n) = 4%nat.
+Proof. reflexivity. Qed.
+
+Lemma take_app a b : take (N.of_nat (length a)) (a ++ b) = TkDone a b.
+Proof.
+  unfold take. rewrite app_length.
+  replace (N.of_nat (length a) <=? N.of_nat (length a + length b)) with true by (symmetry; apply N.leb_le; lia).
+  rewrite Nat2N.id, firstn_app, Nat.sub_diag, firstn_all, skipn_app, Nat.sub_diag, skipn_all.
+  cbn. now rewrite app_nil_r.
+Qed.
+
+Lemma take_short want d : N.of_nat (length d) < want -> take want d = TkShort (length d).
+Proof. intros H. unfold take. now replace (want <=? N.of_nat (length d)) with false by (symmetry; apply N.leb_gt; lia). Qed.
+
+Definition fits (max : option N) (m : bytes) : Prop :=
+  N.of_nat (length m) < 4294967296 /\ over max (N.of_nat (length m)) = false.
+
+Lemma spec_read_frame fuel max t m rest :
+  fits max m ->
+  spec_read (S fuel) max t (write_msg m ++ rest) =
+  let (ms, e) := spec_read fuel max t rest in (m :: ms, e).
+Proof.
+  intros [Hlt Hov]. cbn [spec_read]. unfold write_msg. rewrite <- app_assoc.
+  change 4 with (N.of_nat (length (be32 (N.of_nat (length m))))) at 1. rewrite take_app.
+  cbv zeta. rewrite be_decode_be32 by exact Hlt. rewrite Hov, take_app. reflexivity.
+Qed.
+
+Lemma spec_read_frames max t : forall msgs fuel suffix,
+  Forall (fits max) msgs ->
+  spec_read (length msgs + fuel) max t (write_all msgs ++ suffix) =
+  let (ms, e) := spec_read fuel max t suffix in (msgs ++ ms, e).
+Proof.
+  induction msgs as [|m msgs IH]; intros fuel suffix HF.
+  - cbn. destruct (spec_read fuel max t suffix); reflexivity.
+  - inversion HF as [|? ? Hm Hms]; subst. unfold write_all. cbn [map concat length Nat.add].
+    rewrite <- app_assoc. rewrite spec_read_frame by exact Hm.
+    fold (write_all msgs). rewrite IH by exact Hms.
+    destruct (spec_read fuel max t suffix); reflexivity.
+Qed.
+
+Lemma write_all_length msgs : (length msgs <= length (write_all msgs))%nat.
+Proof.
+  induction msgs as [|m msgs IH]; [cbn; lia|].
+  unfold write_all in *. cbn [map concat]. unfold write_msg at 1. rewrite !app_length, be32_length. cbn [length]. lia.
+Qed.
+
+Lemma expected_frames max t msgs suffix :
+  Forall (fits max) msgs ->
+  exists f, expected max t (write_all msgs ++ suffix) =
+            let (ms, e) := spec_read (S f) max t suffix in (msgs ++ ms, e).
+Proof.
+  intros HF. unfold expected.
+  pose proof (write_all_length msgs) as Hl.
+  exists (length (write_all msgs ++ suffix) - length msgs)%nat.
+  replace (S (length (write_all msgs ++ suffix))) with
+    (length msgs + S (length (write_all msgs ++ suffix) - length msgs))%nat
+    by (rewrite app_length; lia).
+  apply spec_read_frames. exact HF.
+Qed.
+
+(* a stream that stops after j bytes of the frame of m *)
+Lemma spec_read_partial f max t m j :
+  fits max m -> (j < length (write_msg m))%nat ->
+  spec_read (S f) max t (firstn j (write_msg m)) =
+  ([], short_outcome t (4 <=? j)%nat (if (j <? 4)%nat then j else (j - 4)%nat)
+                     (if (j <? 4)%nat then 4 else N.of_nat (length m))).
+Proof.
+  intros [Hlt Hov] Hj. cbn [spec_read]. unfold write_msg in *. rewrite app_length, be32_length in Hj.
+  destruct (Nat.ltb_spec j 4) as [H4|H4].
+  - rewrite take_short.
+    + rewrite firstn_length, app_length, be32_length.
+      replace (Nat.min j (4 + length m)) with j by lia.
+      replace (4 <=? j)%nat with false by (symmetry; apply Nat.leb_gt; lia). reflexivity.
+    + rewrite firstn_length, app_length, be32_length. lia.
+  - rewrite firstn_app, be32_length.
+    rewrite (firstn_all2 (be32 (N.of_nat (length m)))) by (rewrite be32_length; lia).
+    change 4 with (N.of_nat (length (be32 (N.of_nat (length m))))) at 1. rewrite take_app.
+    cbv zeta. rewrite be_decode_be32 by exact Hlt. rewrite Hov.
+    rewrite take_short by (rewrite firstn_length; lia).
+    rewrite firstn_length. replace (Nat.min (j - 4) (length m)) with (j - 4)%nat by lia.
+    replace (4 <=? j)%nat with true by (symmetry; apply Nat.leb_le; lia). reflexivity.
+Qed.
+
+Lemma fits_some max m : N.of_nat (length m) <= max -> max < 4294967296 -> fits (Some max) m.
+Proof. intros H1 H2. split; [lia|]. cbn. apply N.ltb_ge. exact H1. Qed.
+
+Lemma Forall_fits max msgs :
+  Forall (fun m => N.of_nat (length m) <= max) msgs -> max < 4294967296 -> Forall (fits (Some max)) msgs.
+Proof. intros H Hm. eapply Forall_impl; [|exact H]. intros m Hle. now apply fits_some. Qed.
+
+Lemma roundtrip_any_sched_proof : forall max msgs sch eg,
+  Forall (fun m => N.of_nat (length m) <= max) msgs -> max < 4294967296 ->
+  read_all max (mk_src (write_all msgs) sch eg TEOF) = (msgs, FErr MEOF 0).
+Proof.
+  intros max msgs sch eg HF Hm. rewrite any_sched_proof.
+  destruct (expected_frames (Some max) TEOF msgs [] (Forall_fits _ _ HF Hm)) as [f E].
+  rewrite app_nil_r in E. rewrite E. cbn. now rewrite app_nil_r.
+Qed.
+
+Lemma truncation_proof : forall max msgs m j sch eg,
+  Forall (fun m => N.of_nat (length m) <= max) msgs -> N.of_nat (length m) <= max -> max < 4294967296 ->
+  (0 < j < length (write_msg m))%nat ->
+  read_all max (mk_src (write_all msgs ++ firstn j (write_msg m)) sch eg TEOF) = (msgs, FErr MUnexpected 0).
+Proof.
+  intros max msgs m j sch eg HF Hmm Hm Hj. rewrite any_sched_proof.
+  destruct (expected_frames (Some max) TEOF msgs (firstn j (write_msg m)) (Forall_fits _ _ HF Hm)) as [f E].
+  rewrite E, spec_read_partial by (try apply fits_some; lia || assumption).
+  rewrite app_nil_r. unfold short_outcome.
+  destruct (Nat.ltb_spec j 4); [|replace (4 <=? j)%nat with true by (symmetry; apply Nat.leb_le; lia); reflexivity].
+  replace (0 <? j)%nat with true by (symmetry; apply Nat.ltb_lt; lia). now rewrite orb_true_r.
+Qed.
+
+Lemma oversize_early_proof : forall max msgs size rest sch eg t,
+  Forall (fun m => N.of_nat (length m) <= max) msgs -> max < size -> size < 4294967296 ->
+  read_all max (mk_src (write_all msgs ++ be32 size ++ rest) sch eg t) = (msgs, FErr MOversize (length rest)).
+Proof.
+  intros max msgs size rest sch eg t HF Hlt Hsz. rewrite any_sched_proof.
+  destruct (expected_frames (Some max) t msgs (be32 size ++ rest) (Forall_fits _ _ HF ltac:(lia))) as [f E].
+  rewrite E. cbn [spec_read].
+  change 4 with (N.of_nat (length (be32 size))) at 1. rewrite take_app. cbv zeta.
+  rewrite be_decode_be32 by exact Hsz. cbn [over].
+  replace (max <? size) with true by (symmetry; apply N.ltb_lt; exact Hlt). now rewrite app_nil_r.
+Qed.
+
+Lemma stall_reports_proof : forall max msgs m j sch eg,
+  Forall (fun m => N.of_nat (length m) <= max) msgs -> N.of_nat (length m) <= max -> max < 4294967296 ->
+  (j < length (write_msg m))%nat ->
+  read_all max (mk_src (write_all msgs ++ firstn j (write_msg m)) sch eg TBlock) =
+  (msgs, FTimeout (4 <=? j)%nat (if (j <? 4)%nat then j else (j - 4)%nat)
+                  (if (j <? 4)%nat then 4 else N.of_nat (length m))).
+Proof.
+  intros max msgs m j sch eg HF Hmm Hm Hj. rewrite any_sched_proof.
+  destruct (expected_frames (Some max) TBlock msgs (firstn j (write_msg m)) (Forall_fits _ _ HF Hm)) as [f E].
+  rewrite E, spec_read_partial by (try apply fits_some; lia || assumption).
+  now rewrite app_nil_r.
+Qed.
+
+Lemma zero_length_ok_proof : forall max a b sch eg,
+  Forall (fun m => N.of_nat (length m) <= max) (a ++ b) -> max < 4294967296 ->
+  read_all max (mk_src (write_all (a ++ [] :: b)) sch eg TEOF) = (a ++ [] :: b, FErr MEOF 0).
+Proof.
+  intros max a b sch eg HF Hm. apply roundtrip_any_sched_proof; [|exact Hm].
+  apply Forall_app in HF as [Ha Hb]. apply Forall_app. split; [exact Ha|].
+  constructor; [cbn; lia|exact Hb].
+Qed.
+
+(* the decoder of the peers (no limit) and the runner's reader agree unless the limit strikes *)
+Lemma spec_nolimit fuel max t : forall d r,
+  spec_read fuel (Some max) t d = r -> (forall n, snd r <> FErr MOversize n) ->
+  spec_read fuel None t d = r.
+Proof.
+  induction fuel as [|f IH]; intros d r E Hno; [exact E|].
+  cbn [spec_read] in *. destruct (take 4 d) as [p rest|n]; [|exact E].
+  cbv zeta in *. cbn [over] in *. destruct (max <? be_decode p 0).
+  - subst r. exfalso. eapply Hno. reflexivity.
+  - destruct (take (be_decode p 0) rest) as [m rest'|n]; [|exact E].
+    destruct (spec_read f (Some max) t rest') as [ms e] eqn:E'.
+    rewrite (IH rest' (ms, e) E'); [exact E|]. subst r. exact Hno.
+Qed.
+
+Lemma peer_decoder_same_proof : forall max s,
+  (forall n, snd (read_all max s) <> FErr MOversize n) -> decode_all s = read_all max s.
+Proof.
+  intros max [d sch eg t] Hno. rewrite decoder_any_sched_proof, any_sched_proof.
+  unfold expected. apply (spec_nolimit _ max); [reflexivity|].
+  intros n. specialize (Hno n). rewrite any_sched_proof in Hno. exact Hno.
+Qed.
